@@ -1166,3 +1166,183 @@ theorem unquote_pyEncode (s : Bytes) (h : validUtf8 s = true) :
   exact this
 
 end Martian.InvocationStr
+
+/-! ### … and by the JSON decoder -/
+namespace Martian.InvocationStr
+open Martian.Lexer (Bytes surrPair encodeRune hexByte runeError)
+open Martian.Format (hexDigit)
+open Martian.ShellQuote (runeWidth validFrom validUtf8 ok2 ok3 ok4 isCont)
+
+theorem jsonEscape_u (n : Nat) (Y : Bytes) (hn : n < 0x10000) :
+    jsonEscape 0x75 (hex4 n ++ Y) = surrPair n Y := by
+  obtain ⟨c1, c2⟩ := hex4_val n hn
+  have cv : n % 256 + n / 256 * 256 = n := by omega
+  have hg : getu4 (hex4 n ++ Y) = some (n, Y) := by
+    simp only [hex4, List.cons_append, List.nil_append]
+    simp [getu4, c1, c2, cv]
+  by_cases hs : 0xD800 ≤ n ∧ n < 0xE000
+  · have t : (decide (0xD800 ≤ n) && decide (n < 0xE000)) = true := by simp [hs.1, hs.2]
+    simp only [jsonEscape, hg]
+    simp only [show ((0x75 : UInt8) == 0x22 || (0x75 : UInt8) == 0x5C || (0x75 : UInt8) == 0x2F) = false from by decide,
+      show ((0x75 : UInt8) == 0x62) = false from by decide, show ((0x75 : UInt8) == 0x66) = false from by decide,
+      show ((0x75 : UInt8) == 0x6E) = false from by decide, show ((0x75 : UInt8) == 0x72) = false from by decide,
+      show ((0x75 : UInt8) == 0x74) = false from by decide, beq_self_eq_true, Bool.false_eq_true, ↓reduceIte, t]
+    exact jsonSurr_eq n Y hs.1 hs.2
+  · have t : (decide (0xD800 ≤ n) && decide (n < 0xE000)) = false := by
+      simp only [Bool.and_eq_false_iff, decide_eq_false_iff_not]; omega
+    simp only [jsonEscape, hg]
+    simp only [show ((0x75 : UInt8) == 0x22 || (0x75 : UInt8) == 0x5C || (0x75 : UInt8) == 0x2F) = false from by decide,
+      show ((0x75 : UInt8) == 0x62) = false from by decide, show ((0x75 : UInt8) == 0x66) = false from by decide,
+      show ((0x75 : UInt8) == 0x6E) = false from by decide, show ((0x75 : UInt8) == 0x72) = false from by decide,
+      show ((0x75 : UInt8) == 0x74) = false from by decide, beq_self_eq_true, Bool.false_eq_true, ↓reduceIte, t]
+    unfold surrPair
+    simp [t]
+
+theorem dec_escU (g : Nat) (n : Nat) (X : Bytes) (hn : n < 0x10000)
+    (hs : ¬ (0xD800 ≤ n ∧ n < 0xE000)) :
+    jsonDecLoop (g + 1) (escU n ++ X) 0 = (jsonDecLoop g X 0).map (encodeRune n ++ ·) := by
+  have hsp : surrPair n X = some (encodeRune n, X) := by
+    unfold surrPair
+    have : (decide (0xD800 ≤ n) && decide (n < 0xE000)) = false := by
+      simp only [Bool.and_eq_false_iff, decide_eq_false_iff_not]; omega
+    simp [this]
+  have hgo : jsonEscape 0x75 (hex4 n ++ X) = some (encodeRune n, X) := by rw [jsonEscape_u n X hn, hsp]
+  simp only [escU, List.cons_append]
+  exact dec_esc g 0x75 _ X _ hgo
+
+theorem dec_escPair (g : Nat) (r : Nat) (X : Bytes) (h1 : 0x10000 ≤ r) (h2 : r ≤ 0x10FFFF) :
+    jsonDecLoop (g + 1) (escU (0xD800 + (r - 0x10000) / 1024) ++ (escU (0xDC00 + (r - 0x10000) % 1024) ++ X)) 0
+      = (jsonDecLoop g X 0).map (encodeRune r ++ ·) := by
+  have bhi : 0xD800 ≤ 0xD800 + (r - 0x10000) / 1024 ∧ 0xD800 + (r - 0x10000) / 1024 < 0xDC00 := by omega
+  have blo : 0xDC00 ≤ 0xDC00 + (r - 0x10000) % 1024 ∧ 0xDC00 + (r - 0x10000) % 1024 < 0xE000 := by omega
+  have hr : 0x10000 + (0xD800 + (r - 0x10000) / 1024 - 0xD800) * 1024
+      + (0xDC00 + (r - 0x10000) % 1024 - 0xDC00) = r := by omega
+  have hgo := jsonEscape_u (0xD800 + (r - 0x10000) / 1024)
+    (escU (0xDC00 + (r - 0x10000) % 1024) ++ X) (by omega)
+  rw [surrPair_pair _ _ r X bhi blo hr] at hgo
+  have : escU (0xD800 + (r - 0x10000) / 1024) ++ (escU (0xDC00 + (r - 0x10000) % 1024) ++ X)
+      = 0x5C :: 0x75 :: (hex4 (0xD800 + (r - 0x10000) / 1024) ++ (escU (0xDC00 + (r - 0x10000) % 1024) ++ X)) := by
+    simp [escU]
+  rw [this]
+  exact dec_esc g 0x75 _ X _ hgo
+
+theorem dec_pyAscii (g : Nat) (b : UInt8) (X : Bytes) (hb : b < 0x80) :
+    jsonDecLoop (g + 1) (pyEscRune b.toNat ++ X) 0 = (jsonDecLoop g X 0).map (b :: ·) := by
+  have hlt : b.toNat < 128 := Martian.Format.lt80_toNat hb
+  unfold pyEscRune
+  by_cases h22 : b.toNat = 0x22
+  · have := eq_of_toNat b _ (by decide) h22; subst this
+    simp only [show ((UInt8.ofNat 0x22).toNat == 0x22) = true from by decide, ↓reduceIte, List.cons_append, List.nil_append]
+    rw [dec_esc g 0x22 X X [0x22] (by simp [jsonEscape])]; rfl
+  · by_cases h5c : b.toNat = 0x5C
+    · have := eq_of_toNat b _ (by decide) h5c; subst this
+      simp only [show ((UInt8.ofNat 0x5C).toNat == 0x22) = false from by decide,
+        show ((UInt8.ofNat 0x5C).toNat == 0x5C) = true from by decide, Bool.false_eq_true, ↓reduceIte,
+        List.cons_append, List.nil_append]
+      rw [dec_esc g 0x5C X X [0x5C] (by simp [jsonEscape])]; rfl
+    · by_cases h0a : b.toNat = 0x0A
+      · have := eq_of_toNat b _ (by decide) h0a; subst this
+        simp (decide := true) only [↓reduceIte, List.cons_append, List.nil_append]
+        rw [dec_esc g 0x6E X X [0x0A] (by simp [jsonEscape])]; rfl
+      · by_cases h0d : b.toNat = 0x0D
+        · have := eq_of_toNat b _ (by decide) h0d; subst this
+          simp (decide := true) only [↓reduceIte, List.cons_append, List.nil_append]
+          rw [dec_esc g 0x72 X X [0x0D] (by simp [jsonEscape])]; rfl
+        · by_cases h09 : b.toNat = 0x09
+          · have := eq_of_toNat b _ (by decide) h09; subst this
+            simp (decide := true) only [↓reduceIte, List.cons_append, List.nil_append]
+            rw [dec_esc g 0x74 X X [0x09] (by simp [jsonEscape])]; rfl
+          · by_cases h0c : b.toNat = 0x0C
+            · have := eq_of_toNat b _ (by decide) h0c; subst this
+              simp (decide := true) only [↓reduceIte, List.cons_append, List.nil_append]
+              rw [dec_esc g 0x66 X X [0x0C] (by simp [jsonEscape])]; rfl
+            · by_cases h08 : b.toNat = 0x08
+              · have := eq_of_toNat b _ (by decide) h08; subst this
+                simp (decide := true) only [↓reduceIte, List.cons_append, List.nil_append]
+                rw [dec_esc g 0x62 X X [0x08] (by simp [jsonEscape])]; rfl
+              · simp only [beq_iff_eq, h22, h5c, h0a, h0d, h09, h0c, h08, ↓reduceIte]
+                by_cases hp : (decide (0x20 ≤ b.toNat) && decide (b.toNat ≤ 0x7E)) = true
+                · simp only [hp, ↓reduceIte, List.cons_append, List.nil_append, ofNat_toNat']
+                  simp only [Bool.and_eq_true, decide_eq_true_eq] at hp
+                  have hne : (b == 0x5C) = false := by
+                    apply Bool.eq_false_iff.mpr
+                    intro hh; have := eq_of_beq hh; subst this; exact h5c rfl
+                  have hnq : (b == 0x22) = false := by
+                    apply Bool.eq_false_iff.mpr
+                    intro hh; have := eq_of_beq hh; subst this; exact h22 rfl
+                  have h20 : ¬ b < 0x20 := by
+                    rw [UInt8.lt_iff_toNat_lt]
+                    have : (0x20 : UInt8).toNat = 32 := rfl
+                    omega
+                  exact dec_plain g b X hne hnq h20 hb
+                · simp only [hp, Bool.false_eq_true, ↓reduceIte]
+                  have hlt2 : b.toNat < 0x10000 := by omega
+                  simp only [hlt2, ↓reduceIte]
+                  rw [dec_escU g b.toNat X hlt2 (by omega)]
+                  rw [Martian.Format.encodeRune_ascii _ hlt]
+                  simp
+
+theorem dec_pyRune (g : Nat) (b : UInt8) (r : Bytes) (w : Nat) (X : Bytes)
+    (hw : runeWidth (b :: r) = some w) :
+    jsonDecLoop (g + 1) (pyEscRune (decodeRune w (b :: r)) ++ X) 0
+      = (jsonDecLoop g X 0).map ((b :: r.take (w - 1)) ++ ·) := by
+  by_cases hb : b < 0x80
+  · have : w = 1 := by simp [runeWidth, hb] at hw; exact hw.symm
+    subst this
+    have hd : decodeRune 1 (b :: r) = b.toNat := by simp [decodeRune]
+    rw [hd, dec_pyAscii g b X hb]
+    simp
+  · rcases runeWidth_inv b r w hb hw with ⟨rfl, b1, t, rfl, h2⟩ | ⟨rfl, b1, b2, t, rfl, h3⟩ |
+      ⟨rfl, b1, b2, b3, t, rfl, h4⟩
+    · have hd : decodeRune 2 (b :: b1 :: t) = (b.toNat % 32) * 64 + b1.toNat % 64 := by simp [decodeRune]
+      obtain ⟨l, u⟩ := enc_dec2_bounds b b1 h2
+      rw [hd, pyEscRune_bmp _ l (by omega), dec_escU g _ X (by omega) (by omega), enc_dec2 b b1 h2]
+      simp
+    · have hd : decodeRune 3 (b :: b1 :: b2 :: t)
+          = (b.toNat % 16) * 4096 + (b1.toNat % 64) * 64 + b2.toNat % 64 := by simp [decodeRune]
+      obtain ⟨he, l, u, ns⟩ := enc_dec3 b b1 b2 h3
+      rw [hd, pyEscRune_bmp _ (by omega) u, dec_escU g _ X u ns, he]
+      simp
+    · have hd : decodeRune 4 (b :: b1 :: b2 :: b3 :: t)
+          = (b.toNat % 8) * 262144 + (b1.toNat % 64) * 4096 + (b2.toNat % 64) * 64 + b3.toNat % 64 := by
+        simp [decodeRune]
+      obtain ⟨he, l, u⟩ := enc_dec4 b b1 b2 b3 h4
+      rw [hd, pyEscRune_astral _ l, List.append_assoc, dec_escPair g _ X l u, he]
+      simp
+
+theorem dec_pyFrom : ∀ (s : Bytes) (k g : Nat), (pyFrom s k).length < g → validFrom s k = true →
+    jsonDecLoop g (pyFrom s k) 0 = some (s.drop k) := by
+  intro s
+  induction s with
+  | nil =>
+    intro k g hg _
+    obtain ⟨g', rfl⟩ : ∃ g', g = g' + 1 := ⟨g - 1, by omega⟩
+    simp [pyFrom, jsonDecLoop]
+  | cons b r ih =>
+    intro k g hg hv
+    cases k with
+    | succ k =>
+      simp only [pyFrom, List.drop_succ_cons] at hg ⊢
+      rw [Martian.Format.validFrom_succ] at hv
+      exact ih k g hg hv
+    | zero =>
+      simp only [validFrom] at hv
+      cases hw : runeWidth (b :: r) with
+      | none => simp [hw] at hv
+      | some w =>
+        simp only [hw] at hv
+        simp only [pyFrom, hw, List.drop_zero] at hg ⊢
+        obtain ⟨g', rfl⟩ : ∃ g', g = g' + 1 := ⟨g - 1, by omega⟩
+        have hl := pyEscRune_len (decodeRune w (b :: r))
+        rw [dec_pyRune g' b r w _ hw,
+          ih (w - 1) g' (by simp only [List.length_append] at hg; omega) hv]
+        simp [List.take_append_drop]
+
+/-- Go's JSON decoder reads what Python's `json.dumps` writes (stage `_outs` read by mrp). -/
+theorem jsonDecode_pyEncode (s : Bytes) (h : validUtf8 s = true) :
+    jsonDecodeString (pyEncodeString s) = some s := by
+  have := dec_pyFrom s 0 ((pyFrom s 0).length + 1) (by simp) h
+  simp [jsonDecodeString, pyEncodeString] at this ⊢
+  exact this
+
+end Martian.InvocationStr
